@@ -792,6 +792,8 @@ fn csv_mutations(content: &[u8]) -> Vec<(String, String, Vec<u8>)> {
     let mut menu = vec!["", "nope", "!A4000000000", "!D999999999", "-1", "99999999999999999999", "0", "-0", "TextSelector", "MultiSelector;TextSelector", "AnnotationDataSelector", ";", "a;b;c", "\"", "-9223372036854775808"];
     // shifted by one letter, one per character width (a shifted row puts free text into any column)
     menu.extend([longs[1].as_str(), longs[3].as_str(), longs[6].as_str()]);
+    // every name the library itself uses for a kind of selector (also the internal one it writes for compressed sub-selectors)
+    menu.extend(["ResourceSelector", "AnnotationSelector", "DataSetSelector", "MultiSelector", "CompositeSelector", "DirectionalSelector", "InternalRangedSelector", "DataKeySelector", "internalrangedselector"]);
     let mut out = Vec::new();
     for (ri, row) in rows.iter().enumerate() {
         for (ci, _) in row.iter().enumerate() {
@@ -1152,7 +1154,7 @@ pub fn run(rep: &Reporter) -> Coverage {
     cov.traces_validated = cov.transitions;
     cov.extra.insert("two_deviation_failures_already_given_by_the_first_deviation_alone".into(), json!(explained.load(Ordering::Relaxed)));
     cov.distinct_nontrivial = counts.get("ok").copied().unwrap_or(0) + counts.get("inconsistent").copied().unwrap_or(0);
-    cov.rule = "seed documents are produced by the library itself (plus hand-written store-level @include documents: cyclic, dangling, and 48 root + sub-store pairs that carry independently edited inline copies of one dataset / resource) from 4 histories (text, annotation selectors with gaps and temporary ids, metadata selectors, complex selectors) as STAM JSON store, annotation array (annotate_from_file), dataset file, STAM CSV files and CBOR; every single deviation is generated, and every pair of a structural first deviation (delete / duplicate / temporary-id retype / redirected reference) with a second one (delete / swap / temporary-id retype / redirect / null) on the smallest JSON seed (thorough: on every JSON seed): JSON on an order-preserving tree: delete / duplicate / swap-with-next of every node, every number := each integer in -8..8, retype of every node to each of 15 values (null, true, numbers incl. 2^63 and 1e308, empty string/array/object, temporary ids up to 2^64-1), @type renamed to each other type, every string redirected to every other id, every selector wrapped in a complex selector; CSV: every cell := each of 18 values (incl. three long strings of 2-, 3- and 4-byte characters shifted by one letter), row delete/duplicate, column drop; CBOR: every truncation, every single bit flip, every byte := 5 values; a two-deviation document that fails exactly like its first deviation alone is counted there, otherwise it is classed by its second deviation; each document is loaded by the real loader in a worker process (allocation cap 1 GiB live / 256 MiB per request, 5 s wall limit); verdict must be Err or a store that passes the C01-C03 consistency checks; plus all strings of length <= 3 over 14 symbols, nine long multi-byte strings (every byte offset below 40 inside a character in one of them) and two 100-character strings through Cursor/Type/DataFormat/SelectorKind/Offset parsers; non-trivial = documents that loaded".into();
+    cov.rule = "seed documents are produced by the library itself (plus hand-written store-level @include documents: cyclic, dangling, and 48 root + sub-store pairs that carry independently edited inline copies of one dataset / resource) from 4 histories (text, annotation selectors with gaps and temporary ids, metadata selectors, complex selectors) as STAM JSON store, annotation array (annotate_from_file), dataset file, STAM CSV files and CBOR; every single deviation is generated, and every pair of a structural first deviation (delete / duplicate / temporary-id retype / redirected reference) with a second one (delete / swap / temporary-id retype / redirect / null) on the smallest JSON seed (thorough: on every JSON seed): JSON on an order-preserving tree: delete / duplicate / swap-with-next of every node, every number := each integer in -8..8, retype of every node to each of 15 values (null, true, numbers incl. 2^63 and 1e308, empty string/array/object, temporary ids up to 2^64-1), @type renamed to each other type, every string redirected to every other id, every selector wrapped in a complex selector; CSV: every cell := each of 27 values (incl. every selector kind name, also the internal one) (incl. three long strings of 2-, 3- and 4-byte characters shifted by one letter), row delete/duplicate, column drop; CBOR: every truncation, every single bit flip, every byte := 5 values; a two-deviation document that fails exactly like its first deviation alone is counted there, otherwise it is classed by its second deviation; each document is loaded by the real loader in a worker process (allocation cap 1 GiB live / 256 MiB per request, 5 s wall limit); verdict must be Err or a store that passes the C01-C03 consistency checks; plus all strings of length <= 3 over 14 symbols, nine long multi-byte strings (every byte offset below 40 inside a character in one of them) and two 100-character strings through Cursor/Type/DataFormat/SelectorKind/Offset parsers; non-trivial = documents that loaded".into();
     cov.samples = vec![
         json!({"seed": "json:text", "mutation": "retype:tempid-4e9", "path": ".annotations[].@id"}),
         json!({"seed": "cbor:text", "mutation": "bitflip3", "path": "tenth4"}),
